@@ -1193,6 +1193,11 @@ class Program:
         if self._is_external_call(n, env, f):
             self.resolved_calls += 1
             return
+        if isinstance(fn, ast.Attribute) and isinstance(fn.value, ast.Call) and isinstance(fn.value.func, ast.Name) and \
+           fn.value.func.id == 'super' and f.cls is not None and self.m.resolve_method(f.cls.name, fn.attr, after=f.cls.name) is None:
+            # super().m(...) in a class none of whose package bases defines m: a builtin base (Exception, object, ...)
+            self.resolved_calls += 1
+            return
         # unresolved receiver: over-approximate by name
         if isinstance(fn, ast.Attribute):
             cands = [g for g in self.m.methods_named(fn.attr) if g.kind == 'method']
